@@ -215,6 +215,12 @@ def altIds (m : Option MetaJ) : Option (List (String × String)) :=
 inductive Loader | minimal | full
 deriving Repr, DecidableEq
 
+/-- one entry of `meta.xrefs`: `TermId.from_curie(xref.val)` (`none` = it raises) -/
+def xrefTid (x : Option String) : Option (String × String) :=
+  match x with
+  | some v => termIdOf v
+  | none => none
+
 /-- `MinimalTermFactory.create_term` / `TermFactory.create_term`; an error is an exception of the real factory -/
 def mkTerm (L : Loader) (tid : String × String) (n : NodeJ) : Except Err Term :=
   match altIds n.mta with
@@ -233,7 +239,7 @@ def mkTerm (L : Loader) (tid : String × String) (n : NodeJ) : Except Err Term :
           | none => .error .valueError                     -- `Definition(None, ...)` is rejected
       let xr : Except Err (Option (List (String × String))) :=
         if mj.xrefs.isEmpty then .ok none
-        else match mapM' (fun (x : Option String) => match x with | some v => termIdOf v | none => none) mj.xrefs with
+        else match mapM' xrefTid mj.xrefs with
           | some l => .ok (some l)
           | none => .error .valueError
       match defn, xr with
